@@ -471,6 +471,13 @@ class Check:
         files = r["deps"]
         n, q, names = count_obligations(files)
         bad = audit()
+        # a fragment the translator could not read leaves a stale table behind: the theorems over it are then
+        # not about the current source, so the obligation counts as broken
+        import rust2coq
+        stale = sorted(k for k, v in bad_frag.items() if any(f.endswith("/Gen/" + g) or f.endswith("Gen/" + g) for g in rust2coq.FRAGMENT_FILES.get(k, []) for f in files))
+        if stale:
+            r["ok"] = False
+            r["output"] = "translator could not regenerate %s from /repo: %s\n%s" % (", ".join(stale), "; ".join(bad_frag[k] for k in stale), r.get("output", ""))
         ok = r["ok"] and not bad and q >= n
         axioms = sorted({a for v in r["assumptions"].values() for a in v})
         self.coverage.update(
